@@ -290,7 +290,13 @@ def _selection(case, tmp):
     folder = os.path.join(tmp, "sim")
     os.mkdir(folder)
     shutil.copy(cfile, os.path.join(folder, "initParams.json"))
-    for t in times:
+    # the checkpoints are written in a shuffled order (as after a restart from an older time point that re-writes
+    # later ones): modification order and directory order say nothing about the simulation time
+    import time as _time
+    write_order = list(times)
+    random.Random(case["seed"] ^ 0x51).shuffle(write_order)
+    for t in write_order:
+        _time.sleep(0.02)
         with h5py.File(os.path.join(folder, "grid_{:06}.h5".format(t)), "w") as f:
             shape = [npts[i] for i in [0, 2, 1, 3]]
             d = f.create_dataset("dset", shape, dtype=float)
